@@ -64,3 +64,76 @@ def raw_state(st):
 
 def tableau_rows(st):
     return [rm.from_gp(st.gs[i], int(st.ps[i]) % 4) for i in range(st.gs.shape[0])]
+
+
+# ----------------------------------------------------------------- back ends
+class Backend:
+    """the handful of constructors the worlds need, for numpy (pyclifford) and torch
+    (torchclifford).  Reference-model conversions work on both (they only index and int())."""
+    name = "numpy"
+
+    def __init__(self):
+        self.mod = load()
+
+    def arr(self, a, kind="g"):
+        return np.array(a, dtype=np.int_)
+
+    def clone(self, a):
+        return np.array(a).copy()
+
+    def mk_pauli(self, p):
+        return self.mod.Pauli(self.arr(rm.to_g(p[0])), int(p[1]))
+
+    def mk_list(self, ps):
+        gs = self.arr([rm.to_g(p[0]) for p in ps])
+        return self.mod.PauliList(gs, self.arr([p[1] for p in ps], "p"))
+
+    def mk_map(self, images):
+        gs = self.arr([rm.to_g(p[0]) for p in images])
+        return self.mod.CliffordMap(gs, self.arr([p[1] for p in images], "p"))
+
+    def mk_state(self, gs, ps, r):
+        st = self.mod.StabilizerState(gs=self.clone(gs), ps=self.clone(ps))
+        st.r = int(r)
+        return st
+
+    def identity_circuit(self, n):
+        return self.mod.identity_circuit(n)
+
+
+class TorchBackend(Backend):
+    name = "torch"
+
+    def __init__(self):
+        tc = seams.import_sut_torch()
+        self.torch = seams.torch()
+
+        class NS:
+            """torchclifford does not re-export its classes at top level: look them up in the
+            submodules the way a user would import them."""
+            def __getattr__(self_, name):
+                for m in (tc, tc.circuit, tc.stabilizer, tc.paulialg, tc.utils):
+                    if hasattr(m, name):
+                        return getattr(m, name)
+                raise AttributeError(name)
+        self.mod = NS()
+
+    def arr(self, a, kind="g"):
+        return self.torch.tensor(a, dtype=self.torch.float32)
+
+    def clone(self, a):
+        return a.detach().clone() if hasattr(a, "detach") else self.torch.tensor(np.array(a), dtype=self.torch.float32)
+
+    def mk_state(self, gs, ps, r):
+        st = self.mod.StabilizerState(self.clone(gs), self.clone(ps))
+        st.r = int(r)
+        return st
+
+
+_BACKENDS = {}
+
+
+def backend(name):
+    if name not in _BACKENDS:
+        _BACKENDS[name] = TorchBackend() if name == "torch" else Backend()
+    return _BACKENDS[name]
